@@ -132,6 +132,7 @@ struct Run {
             case 6: op_run(false); break;
             case 7: op_run(true); break;
         }
+        vu::set_case("mutex operation trace:" + trace);
         uint64_t st = locked;
         for (auto& x : w) st = st * 7 + x->st;
         sig_hash = vu::mix(sig_hash, st);
@@ -166,6 +167,7 @@ int main(int argc, char** argv) {
     int shard, nshards; args.shard(shard, nshards);
     bool thorough = args.str("tier", "quick") == "thorough";
     vu::Rng rng(args.num("seed", 1) * 4242 + shard);
+    vu::install_case_reporter();
     uint64_t idx = 0;
     int L = thorough ? 8 : 6;
     for (int len = 1; len <= L; ++len) {
